@@ -100,7 +100,7 @@ class SqlMonitor:
 # ---- steps ---------------------------------------------------------------------------------------------------
 
 class Hist:
-	def __init__(self, ctx, rng, tag, testdb=False):
+	def __init__(self, ctx, rng, tag, testdb=False, journal=None):
 		from vf import world as W
 		from vf.props import _cli
 		self.ctx, self.rng = ctx, rng
@@ -132,6 +132,17 @@ class Hist:
 		# make the files read-write for the user (a read-only mode bit would hide write attempts behind EACCES)
 		for p in self.db.iterdir():
 			os.chmod(p, 0o644)
+		# the genome file in either SQLite journal mode: write-ahead logging is a persistent property of the file (header bytes 18/19)
+		self.journal = journal or rng.choice(['delete', 'delete', 'wal'])
+		if self.journal == 'wal':
+			import sqlite3
+			gdb = next(p for p in self.db.iterdir() if p.suffix in ('.gdb', '.db'))
+			con = sqlite3.connect(str(gdb))
+			mode = con.execute('PRAGMA journal_mode=WAL').fetchone()[0]
+			con.close()
+			ctx.count(f'genome_file_journal_mode:{mode}')
+		else:
+			ctx.count('genome_file_journal_mode:delete')
 		self.qsig = None
 		self.n = 0
 
@@ -363,7 +374,7 @@ def run_hist(sh, ctx):
 	mon = SqlMonitor(ctx)
 	try:
 		for h in range(sh['nhist']):
-			H = Hist(ctx, rng, f'h{h}', testdb=sh.get('testdb', False))
+			H = Hist(ctx, rng, f'h{h}', testdb=sh.get('testdb', False), journal='wal' if h % 3 == 1 else 'delete')
 			mon.dbpath = str(H.db)
 			watch = Watch(ctx, H.db)
 			hist = []
@@ -395,8 +406,9 @@ def run_hist(sh, ctx):
 def classify_syscalls(trace_text, targets):
 	"""-> (counts by class, list of offending lines). targets: absolute paths of the two database files."""
 	counts, bad = {}, []
+	pats = [re.compile(re.escape(t) + r'(?![-\w.])') for t in targets]     # not the -wal / -shm / -journal side files
 	for line in trace_text.splitlines():
-		if not any(t in line for t in targets):
+		if not any(p_.search(line) for p_ in pats):
 			continue
 		m = re.match(r'^(?:\d+\s+)?(\w+)\(', line)
 		if not m:
@@ -424,7 +436,7 @@ def run_strace(sh, ctx):
 	from vf import core
 	rng = random.Random(f'C18-strace-{ctx.seed}')
 	for h in range(sh['nhist']):
-		H = Hist(ctx, rng, f's{h}', testdb=(h % 2 == 1))
+		H = Hist(ctx, rng, f's{h}', testdb=(h % 2 == 1), journal='wal' if h % 2 == 0 else 'delete')
 		watch = Watch(ctx, H.db)
 		targets = [str(p) for p in watch.files]
 		env = core.worker_env()
@@ -468,7 +480,7 @@ def run_shard(sh, ctx):
 def finalize(merged, tier, seed, inconclusive):
 	c = merged['counters']
 	need = ['histories', 'step:query_files', 'step:query_sigs', 'step:dist_usedb', 'step:info', 'step:fail', 'step:library', 'step:orm', 'step:cli_session', 'step:explicit_writable_maker', 'step:default_session_direct', 'step:taxonomy_reads', 'failing_commands', 'commit_refused', 'orm_edit_steps',
-	        'sql:SELECT', 'straced_commands', 'syscall:open:O_RDONLY']
+	        'sql:SELECT', 'straced_commands', 'syscall:open:O_RDONLY', 'genome_file_journal_mode:wal', 'genome_file_journal_mode:delete']
 	for n in need:
 		if c.get(n, 0) == 0:
 			inconclusive.append(f'class never observed: {n}')
